@@ -27,11 +27,13 @@ Definition is_valid_topic (topic : bytes) : bool :=
   else if contains_wildcard topic then false
   else true.
 
-(* str::split('/'): always at least one segment; "a/" gives ["a"; ""] *)
+(* str::split('/'): always at least one segment; "a/" gives ["a"; ""].
+   [cur] accumulates the current segment in reverse; rev_append (linear) instead of rev so that
+   the extracted function is usable on 65536-byte strings. *)
 Fixpoint split_slash_aux (cur : bytes) (s : bytes) : list bytes :=
   match s with
-  | [] => [rev cur]
-  | b :: s' => if b =? SLASH then rev cur :: split_slash_aux [] s' else split_slash_aux (b :: cur) s'
+  | [] => [rev_append cur []]
+  | b :: s' => if b =? SLASH then rev_append cur [] :: split_slash_aux [] s' else split_slash_aux (b :: cur) s'
   end.
 Definition split_slash (s : bytes) : list bytes := split_slash_aux [] s.
 
